@@ -1,6 +1,6 @@
 From Coq Require Import NArith ZArith.
-From GoMC Require Import Base.Dec Model.C01 Model.C02.
+From GoMC Require Import Base.Dec Model.C01 Model.C02 Model.C02_tf.
 Require Import ExtrOcamlBasic.
 Extraction "c02_model.ml" run_flat doc marshal unmarshal enc unm canon zero has_type documented
   dyn_enc dyn2_of raw_reencode dyn_reencode Decode dec_raw dec_dyn2 type_fields marshal_emb unmarshal_emb
-  Z.of_N N.of_nat.
+  tf_table Z.of_N N.of_nat.
